@@ -413,7 +413,7 @@ def sv_class_budget(ctx):
         # ECDSA (last octet zero AND the configuration's DER length: ~700 signatures of 2 ms) is left to stage C,
         # where any length will do; its DER re-encodings need no class and run on every tampered configuration
         return {'rsa': 1, 'ed25519': 1, 'ecdsa': 0, 'hmac': 2, 'digest': 2, 'digestI': 1}
-    return {'rsa': 4, 'ed25519': 6, 'ecdsa': 6, 'hmac': 20, 'digest': 12, 'digestI': 5}
+    return {'rsa': 4, 'ed25519': 4, 'ecdsa': 3, 'hmac': 10, 'digest': 8, 'digestI': 4}
 
 
 SV_SEARCH_CAP = 1800        # (255/256)^1800 = 0.09 %
@@ -423,13 +423,15 @@ def find_sv_classes(ctx, cfg, pool, needs, first=None, same_layout=None, build_k
     """Re-sign varied content (a fresh pk.build of the same abstract configuration: new name / payload / key locator
     octets, for ECDSA also a new nonce) until the signer has returned a signature value of each wanted class.
     -> {class: Built}; a class that was not met within the cap is missing (counted in the evidence, not an error).
-    All packets of one search are signed with one signer object.  The search draws from its own generator, seeded from ctx.rng, so that the number of attempts (which depends on
-    the system randomness of ECDSA) does not shift the run's random stream."""
+    All packets of one search are signed with one signer object.  The search draws from its own generator, seeded
+    from ctx.rng, so that the number of attempts (which depends on the system randomness of ECDSA) does not shift
+    the run's random stream."""
     import random
     srng = random.Random(ctx.rng.getrandbits(64))
     needs = set(needs)
     build_kw = dict(build_kw or {})
-    if build_kw.get('live') is None and signed(cfg):
+    own_signer = build_kw.get('live') is None and signed(cfg)
+    if own_signer:
         # one signer object for the whole search (constructing an RSA signer costs more than a hundred signatures)
         kl = pk.name_bytes(cfg['sg']['kl'], srng) if cfg['sg']['haskl'] else None
         build_kw['live'] = (pk.make_inner(cfg['sg'], pool, kl), kl)
@@ -439,7 +441,13 @@ def find_sv_classes(ctx, cfg, pool, needs, first=None, same_layout=None, build_k
             found[c] = first
     seen = set()
     stale = n = 0
+    rekey = own_signer and cfg['sg']['haskl'] and hasattr(build_kw['live'][0], 'key_locator_name')
     while len(found) < len(needs) and n < SV_SEARCH_CAP and stale < 120:
+        if rekey:
+            # the key locator name is part of the signed portion: vary it too (the signers' public attribute)
+            kl = pk.name_bytes(cfg['sg']['kl'], srng)
+            build_kw['live'][0].key_locator_name = kl
+            build_kw['live'] = (build_kw['live'][0], kl)
         b = pk.build(cfg, srng, pool, **build_kw)
         n += 1
         sig = None if (b.exc is not None or b.rec is None) else b.rec.sig
@@ -560,7 +568,7 @@ def run(ctx):
         budget = tamper_budget(ctx)
         cbudget = sv_class_budget(ctx)
         used = {}
-        cused = {}
+        cused, ctried = {}, {}
         n_cfg = n_t = 0
         # small wires first so that the byte-level budget goes to them; deterministic order
         todo = [ln for ln in lines if not ln['exp']['refuse'] and (signed(ln['cfg']) or need_digest(ln['cfg']))]
@@ -593,9 +601,14 @@ def run(ctx):
                 k += truncations(ctx, cfg, b, ver, range(size), rep)
                 needs = {e['need'] for e in exp['edits'] if e.get('need', 'any') != 'any'}
                 classes = {}
-                if needs and ver is not None and ver.has and cused.get(key, 0) < cbudget.get(cfg['sg']['kind'], 0):
-                    cused[key] = cused.get(key, 0) + 1
-                    for c, b2 in sorted(find_sv_classes(ctx, cfg, pool, needs, first=b, same_layout=pk.exp_layout(exp)).items()):
+                cb = cbudget.get(cfg['sg']['kind'], 0)
+                if needs and ver is not None and ver.has and cused.get(key, 0) < cb and ctried.get(key, 0) < 3 * cb:
+                    # the budget counts configurations in which every class was met (one with little to vary -
+                    # an empty payload, a one-octet name - may not have a signature of the class at all)
+                    got = find_sv_classes(ctx, cfg, pool, needs, first=b, same_layout=pk.exp_layout(exp))
+                    ctried[key] = ctried.get(key, 0) + 1
+                    cused[key] = cused.get(key, 0) + (len(got) == len(needs))
+                    for c, b2 in sorted(got.items()):
                         # the re-signed packet is a signed packet like any other: ranges, matching verifier accepts
                         v2, ok2 = (ver, True) if b2 is b else check_ranges(ctx, cfg, exp, b2, pool, rep)
                         if ok2:
@@ -626,12 +639,12 @@ def run(ctx):
         ctx.extra['tampered_wires_B'] = n_t
         ctx.note('B: %d signed/digest configurations range-checked, %d tampered wires judged (exhaustive on %s)' % (
             n_cfg, n_t, dict(('%s/%s' % k, v) for k, v in sorted(used.items()))))
-        ctx.note('B: signature-value classes (first / last octet zero): re-signed %s configurations; %d of %d class searches '
+        ctx.note('B: signature-value classes (first / last octet zero): every class met in %s configurations; %d of %d class searches '
                  'met a value of the class (%d signatures made, cap %d per search)' % (
                      dict(('%s/%s' % k, v) for k, v in sorted(cused.items())), ctx.extra.get('sv_class_found', 0),
                      ctx.extra.get('sv_class_searches', 0), ctx.extra.get('sv_class_signatures_made', 0), SV_SEARCH_CAP))
-        if 'rsa' in cbudget and not any(k[1] == 'rsa' for k in cused):
-            raise MachineryError('no RSA configuration was re-signed into the signature-value classes')
+        for kd in sorted(k_ for k_, v_ in cbudget.items() if v_ > 0 and not any(k[1] == k_ for k in ctried)):
+            raise MachineryError('no %s configuration was re-signed into the signature-value classes' % kd)
         sign_hist_stage_b(ctx, pool)
         check_hist_stage_b(ctx, pool)
     if 'C' in ctx.stages:
@@ -647,6 +660,7 @@ def run(ctx):
             if rec is not None:
                 recs.append(rec)
         ctx.sample({'kind': 'C-record', 'cfg': recs[0]['cfg'], 'signed': recs[0]['signed'], 'tampers': recs[0]['tampers'][:4]})
+        recs += sv_class_stage_c(ctx, pool)
         rejected = pk.judge(ctx, 'NdnPacketsTrace', 'NdnPacketsTrace.cfg', recs, 'c02-traces')
         ctx.traces += len(recs)
         nt = sum(len(r['tampers']) + len(r.get('svedits', [])) for r in recs)
@@ -654,7 +668,6 @@ def run(ctx):
         ctx.extra['tampered_wires_C'] = nt
         ctx.note('C: %d recorded packets (%d tampered wires) judged by TLC, %d rejected' % (len(recs), nt, len(rejected)))
         report_trace_rejections(ctx, recs, rejected)
-        sv_class_stage_c(ctx, pool)
         sign_hist_stage_c(ctx, pool)
         check_hist_stage_c(ctx, pool)
 
@@ -1089,7 +1102,7 @@ def sv_class_stage_c(ctx, pool):
     like every stage-C packet (ranges, substitutions, re-encodings) and judged by TLC."""
     recs = []
     asked = 0
-    for rep_ in range(ctx.pick(1, 8)):
+    for rep_ in range(ctx.pick(1, 6)):
         for kind in SV_CLASS_KINDS:
             k = 'interest' if kind == 'digestI' else ctx.rng.choice(['data', 'interest'])
             cfg = pk.rand_cfg(ctx.rng, k, maxc=4, big=False)
@@ -1106,14 +1119,11 @@ def sv_class_stage_c(ctx, pool):
                     if not any(e['need'] == want for e in rec.get('svedits', [])):
                         raise MachineryError('the %s packet re-signed into class %s carries no edit of that class' % (kind, want))
                     recs.append(rec)
-    rejected = pk.judge(ctx, 'NdnPacketsTrace', 'NdnPacketsTrace.cfg', recs, 'c02-svclass')
-    ctx.traces += len(recs)
-    ctx.evaluations += sum(len(r['tampers']) + len(r.get('svedits', [])) for r in recs)
-    ctx.note('C: %d of %d packets re-signed into a signature-value class (first / last octet zero) recorded and judged by TLC, %d rejected'
-             % (len(recs), asked, len(rejected)))
+    ctx.note('C: %d of %d packets re-signed into a signature-value class (first / last octet zero) recorded; judged by TLC '
+             'with the other recorded packets' % (len(recs), asked))
     if not any(r['cfg']['sg']['kind'] == 'rsa' for r in recs):
         ctx.note('C: no RSA signature value of a class was met within the cap in this run')
-    report_trace_rejections(ctx, recs, rejected)
+    return recs
 
 
 def replay(ctx, path):
